@@ -15,6 +15,7 @@ C17 In-memory indices mirror the cluster; handling waits for the initial index.
 """
 from __future__ import annotations
 
+import asyncio
 import itertools
 from typing import Any
 
@@ -78,9 +79,13 @@ class IndexScenario(ChangeScenario):
             kopf.index('kopfexamples', id='idx_plain', registry=reg, labels={'idx': 'yes'})(idx_plain)
         kopf.index('kopfexamples', id='idx', registry=reg, labels={'idx': 'yes'})(idx)
 
+        probe_sleep = float(self.params.get('probe_sleep') or 0.0)
+
         async def probe(**kw: Any) -> None:
-            env.log('probe', name=kw['name'], etype=kw['type'], rv=kw['body'].metadata.get('resourceVersion'),
+            env.log('probe', name=kw['name'], uid=kw.get('uid'), etype=kw['type'], rv=kw['body'].metadata.get('resourceVersion'),
                     plain=sorted(kw['idx_plain'].get('all', [])) if not lone else None, **snapshot(kw['idx']))
+            if probe_sleep:
+                await asyncio.sleep(probe_sleep)     # a slow raw-event handler: the object's next events pile up behind this one (a burst)
         kopf.on.event('kopfexamples', id='ev', registry=reg)(probe)
         return reg
 
@@ -103,7 +108,7 @@ class IndexScenario(ChangeScenario):
             return [self.viol(env, 'no-progress', f'execution ended with {env.end_reason}', end=env.end_reason)]
         # the reference: object name -> {key: value}; exclusions after errors
         model: dict[str, dict[Any, str]] = {}
-        plain_model: set[str] = set()             # the never-failing sibling index
+        plain_model: dict[str, str] = {}          # the never-failing sibling index: object -> its name
         excluded_until: dict[str, float] = {}     # temporary exclusion
         excluded_forever: set[str] = set()
         raws: dict[tuple[str, str], dict] = {}
@@ -124,15 +129,17 @@ class IndexScenario(ChangeScenario):
             obj = versions.get((name, p['rv']))
             if obj is None:
                 continue
+            label = name
+            name = p.get('uid') or name     # the model is kept per OBJECT: a name can be taken again while the old object's DELETED event still waits in its queue
             if p['etype'] == 'DELETED':
                 model.pop(name, None)
                 excluded_until.pop(name, None)
                 excluded_forever.discard(name)
-                plain_model.discard(name)
+                plain_model.pop(name, None)
             else:
                 labels = (obj['metadata'].get('labels') or {})
                 code = (obj.get('spec') or {}).get('idx')
-                (plain_model.add if labels.get('idx') == 'yes' else plain_model.discard)(name)
+                (plain_model.__setitem__(name, label) if labels.get('idx') == 'yes' else plain_model.pop(name, None))
                 if labels.get('idx') != 'yes':
                     model.pop(name, None)
                 elif name in excluded_forever:
@@ -142,13 +149,13 @@ class IndexScenario(ChangeScenario):
                 else:
                     excluded_until.pop(name, None)
                     if code == 'k1':
-                        model[name] = {'k1': name}
+                        model[name] = {'k1': label}
                     elif code == 'k2':
-                        model[name] = {'k2': name}
+                        model[name] = {'k2': label}
                     elif code == 'two':
-                        model[name] = {'k1': name, 'k2': name + '!'}
+                        model[name] = {'k1': label, 'k2': label + '!'}
                     elif code == 'scalar':
-                        model[name] = {None: name}
+                        model[name] = {None: label}
                     elif code == 'same':
                         model[name] = {'k1': 'shared'}
                     elif code == 'other':
@@ -163,9 +170,9 @@ class IndexScenario(ChangeScenario):
                     elif code == 'perm':
                         model.pop(name, None)
                         excluded_forever.add(name)
-            if p.get('plain') is not None and sorted(plain_model) != p['plain']:
+            if p.get('plain') is not None and sorted(plain_model.values()) != p['plain']:
                 out.append(self.viol(env, 'index-mismatch', f"t={t}: after the {p['etype']} event of {name} (v{p['rv']}) the never-failing sibling index holds {p['plain']}, "
-                                                            f"the matching live objects are {sorted(plain_model)}", clause='mirror', cls='sibling-index-disturbed'))
+                                                            f"the matching live objects are {sorted(plain_model.values())}", clause='mirror', cls='sibling-index-disturbed'))
                 break
             want: dict[str, list[str]] = {}
             for n, kv in model.items():
@@ -332,6 +339,10 @@ def run(tier: str, seed: int) -> CheckResult:
     # the index under test alone (no always-matching sibling index of the kind): exclusions after errors hold across further events
     hist2 += [build_index(h, sp, lone_index=True, delays=False, early_user=False, time_dev=False) for h in histories(3, ['a', 'b'], codes=['k1', 'temp', 'perm', 'none'])
               for sp in (0.5, 3.0) if any(a[0] == 'set' and a[2] in ('temp', 'perm') for a in h)]
+    # bursts: the events of an object come faster (every 0.25 s) than they are handled (a raw-event handler that takes 1 s): they queue up
+    # behind each other, and every one of them - not only the last of the burst - is indexed before its handlers look at the index
+    hist2 += [build_index(h, 0.25, probe_sleep=1.0, delays=False, early_user=False, time_dev=False)
+              for h in histories(3, ['a', 'b'], codes=['k1', 'k2', 'temp', 'none']) if sum(1 for a in h if a[0] != 'wait') >= 2]
     deep = [] if tier == 'quick' else [build_index(h, 0.5, delays=False, early_user=False, time_dev=False)
                                        for h in histories(4, ['a', 'b']) if sum(1 for a in h if a[0] == 'set') <= 3 and any(a[0] in ('delete', 'label') for a in h)]
     barrier = [BarrierScenario(n1=n1, n2=n2, slow_index=slow, handlers_on_second=h2)
